@@ -1,0 +1,80 @@
+//go:build verif
+
+// Contracts for the deductive verification in /verif (comment-only file: with
+// the "verif" build tag off it does not exist for the compiler, with it on it
+// compiles to nothing). The //@ blocks are read by /verif/bin/vc.
+
+package client
+
+// ---------------------------------------------------------------- subscriber channels (C28)
+
+// each stream handler's flags are only touched with its lock held
+//@ guards monitorHandler.lock: monitorHandler.closed, monitorHandler.init
+//@ guards streamHandler.lock: streamHandler.closed, streamHandler.init
+//@ guards queryHandler.lock: queryHandler.closed, queryHandler.init
+
+// Lock invariants (hold whenever the handler's lock is free): the subscriber channels are closed exactly when the
+// handler is, and the initialisation channel (never closed by the client) is open.
+//@ pure func wfMonitor(h *monitorHandler) bool {
+//@   return h != nil && h.client != nil && h.initCh != nil && !closed(h.initCh) && (h.logCh != nil ==> closed(h.logCh) == h.closed)
+//@ }
+//@ pure func wfStream(h *streamHandler) bool {
+//@   return h != nil && h.client != nil && h.initCh != nil && !closed(h.initCh) && (h.eventCh != nil ==> closed(h.eventCh) == h.closed)
+//@ }
+//@ pure func wfQueryH(h *queryHandler) bool {
+//@   return h != nil && h.client != nil && h.initCh != nil && !closed(h.initCh) &&
+//@     (h.ackCh != nil ==> closed(h.ackCh) == h.closed) && (h.respCh != nil ==> closed(h.respCh) == h.closed)
+//@ }
+
+// deregistering runs Cleanup of whichever handler is registered under the number (each Cleanup is proved below to
+// keep its own handler's invariant and to send nothing on a subscriber channel); its calls are logged
+//@ func (c *RPCClient) deregisterHandler(seq uint64)
+//@   trusted
+//@   logcalls deregister
+//@   assigns F_client.monitorHandler.closed:(Array Ref Bool), F_client.monitorHandler.init:(Array Ref Bool), F_client.streamHandler.closed:(Array Ref Bool), F_client.streamHandler.init:(Array Ref Bool), F_client.queryHandler.closed:(Array Ref Bool), F_client.queryHandler.init:(Array Ref Bool), ChanClosed_string:(Array Ref Bool), ChanClosed_client.NodeResponse:(Array Ref Bool), ChanClosed_map_string_interface__:(Array Ref Bool), ChanSentN_error:(Array Ref Int), ChanSent_error:(Array Ref (Array Int Iface))
+//@   ensures monitors_kept: forall(func(h *monitorHandler) bool { return old(wfMonitor(h)) ==> wfMonitor(h) && (old(h.closed) ==> h.closed) })
+//@   ensures streams_kept: forall(func(h *streamHandler) bool { return old(wfStream(h)) ==> wfStream(h) && (old(h.closed) ==> h.closed) })
+//@   ensures queries_kept: forall(func(h *queryHandler) bool { return old(wfQueryH(h)) ==> wfQueryH(h) && (old(h.closed) ==> h.closed) })
+//@ end
+
+//@ func (mh *monitorHandler) Cleanup()
+//@   requires wf: wfMonitor(mh)
+//@   ensures wf [C28]: wfMonitor(mh)
+//@   ensures closed_once [C28]: mh.closed && (mh.logCh != nil ==> closed(mh.logCh))
+//@   ensures nothing_sent [C28]: mh.logCh != nil ==> sentN(mh.logCh) == old(sentN(mh.logCh))
+//@ end
+//@ func (mh *monitorHandler) Handle(resp *responseHeader)
+//@   requires wf: wfMonitor(mh) && resp != nil && mh.client.dec != nil
+//@   ensures wf [C28]: wfMonitor(mh)
+//@   ensures nothing_after_close [C28]: old(mh.closed) ==> mh.closed && (mh.logCh != nil ==> sentN(mh.logCh) == old(sentN(mh.logCh))) && sentN(mh.initCh) == old(sentN(mh.initCh))
+//@   ensures at_most_one_record [C28]: mh.logCh != nil ==> sentN(mh.logCh) <= old(sentN(mh.logCh))+1
+//@ end
+
+//@ func (sh *streamHandler) Cleanup()
+//@   requires wf: wfStream(sh)
+//@   ensures wf [C28]: wfStream(sh)
+//@   ensures closed_once [C28]: sh.closed && (sh.eventCh != nil ==> closed(sh.eventCh))
+//@   ensures nothing_sent [C28]: sh.eventCh != nil ==> sentN(sh.eventCh) == old(sentN(sh.eventCh))
+//@ end
+//@ func (sh *streamHandler) Handle(resp *responseHeader)
+//@   requires wf: wfStream(sh) && resp != nil && sh.client.dec != nil
+//@   ensures wf [C28]: wfStream(sh)
+//@   ensures nothing_after_close [C28]: old(sh.closed) ==> sh.closed && (sh.eventCh != nil ==> sentN(sh.eventCh) == old(sentN(sh.eventCh))) && sentN(sh.initCh) == old(sentN(sh.initCh))
+//@   ensures at_most_one_record [C28]: sh.eventCh != nil ==> sentN(sh.eventCh) <= old(sentN(sh.eventCh))+1
+//@ end
+
+//@ func (qh *queryHandler) Cleanup()
+//@   requires wf: wfQueryH(qh)
+//@   ensures wf [C28]: wfQueryH(qh)
+//@   ensures closed_once [C28]: qh.closed && (qh.ackCh != nil ==> closed(qh.ackCh)) && (qh.respCh != nil ==> closed(qh.respCh))
+//@   ensures nothing_sent [C28]: (qh.ackCh != nil ==> sentN(qh.ackCh) == old(sentN(qh.ackCh))) && (qh.respCh != nil ==> sentN(qh.respCh) == old(sentN(qh.respCh)))
+//@ end
+//@ func (qh *queryHandler) Handle(resp *responseHeader)
+//@   requires wf: wfQueryH(qh) && resp != nil && qh.client.dec != nil
+//@   ensures wf [C28]: wfQueryH(qh)
+//@   ensures nothing_after_close [C28]: old(qh.closed) ==> qh.closed && (qh.ackCh != nil ==> sentN(qh.ackCh) == old(sentN(qh.ackCh))) &&
+//@       (qh.respCh != nil ==> sentN(qh.respCh) == old(sentN(qh.respCh))) && sentN(qh.initCh) == old(sentN(qh.initCh))
+//@   ensures at_most_one_record [C28]: (qh.ackCh != nil ==> sentN(qh.ackCh) <= old(sentN(qh.ackCh))+1) && (qh.respCh != nil ==> sentN(qh.respCh) <= old(sentN(qh.respCh))+1)
+//@ end
+
+// END-OF-CONTRACTS
